@@ -31,8 +31,8 @@ PARTIAL = ('proved for the model (Properties/C15.v), all n >= 1, every numiter >
            'numpy.linalg.eigvalsh in stage C, for both values of the hermitian flag.')
 ASSUMPTIONS = ['cases with a recorded loop norm in [100 n eps, 1e-6) are excluded from the correspondence (class "ambiguous")']
 
-SPECS = ['generic', 'generic', 'generic', 'generic', 'degenerate', 'degenerate', 'degenerate', 'scalar', 'zero']
-STARTS = ['generic', 'generic', 'generic', 'real', 'invariant', 'invariant', 'eigvec']
+SPECS = ['generic'] * 10 + ['degenerate'] * 6 + ['scalar', 'zero']
+STARTS = ['generic'] * 4 + ['real'] + ['invariant'] * 3 + ['eigvec']
 DTS = [(0.0, 0.5), (0.0, -0.25), (0.25, 0.0), (-0.5, 0.0), (0.125, 0.375), (-0.25, -0.5), (0.0, 1.0), (0.0, 0.0)]
 
 
@@ -61,7 +61,7 @@ def cases(rng, tier):
     sizes = [2, 3, 3, 3, 4, 4, 4, 5, 5, 6, 7] if tier != 'quick' else [2, 2, 3, 3, 3, 3, 4, 4, 4, 4, 5, 5, 5, 6, 7]
     for _ in range(N):
         n = rng.choice(sizes)
-        m = rng.randint(1, n + 2)
+        m = 1 if rng.random() < 0.08 else rng.randint(2, n + 2)
         if rng.random() < 0.3:
             m = n
         cplx = rng.random() < 0.55
